@@ -144,6 +144,10 @@ func (s *Service) proposeEarly(ctx context.Context, duty *beaconblockproposer.Du
 		return
 	}
 	header := headerResponse.Data
+	if header == nil || header.Header == nil || header.Header.Message == nil {
+		s.log.Error().Msg("Beacon block header response contains no block header")
+		return
+	}
 
 	// If the current head is up to the prior slot then we can propose immediately.
 	if header.Header.Message.Slot == duty.Slot()-1 {
